@@ -511,7 +511,10 @@ def _run_doc(case):
         nt = True
     # ---- expected glyph list
     exp = []
+    pending = 0  # TJ adjustment(s) standing before the next glyph, in thousandths of text space
     for si, data in enumerate(case["strings"]):
+        if si and case.get("tj"):
+            pending += case["tj"][si - 1]
         if font["kind"] == "ident":
             codes = _segment(font, data)
             cids = codes
@@ -540,11 +543,13 @@ def _run_doc(case):
                 else:
                     vy, w = (C.numval(x) for x in font["DW2"]) if font["DW2"] is not None else (880, -1000)
                     vx = None
-                exp.append((te, tag, w, vx, vy, cid, code))
+                exp.append((te, tag, w, vx, vy, cid, code, pending))
+                pending = 0
             else:
                 w = font["W"].get(cid)
                 w = C.numval(w) if w is not None else (C.numval(font["DW"]) if font["DW"] is not None else 1000)
-                exp.append((te, tag, w, None, None, cid, code))
+                exp.append((te, tag, w, None, None, cid, code, pending))
+                pending = 0
     # ---- observed
     try:
         got = _chars(case["pdf"])
@@ -555,7 +560,13 @@ def _run_doc(case):
             len(got), len(exp), [bytes(s) for s in case["strings"]], case.get("desc")))
     x, y = float(case["x"]), float(case["y"])
     other, tu_predef = [], []
-    for i, (c, (te, tag, w, vx, vy, cid, code)) in enumerate(zip(got, exp)):
+    for i, (c, (te, tag, w, vx, vy, cid, code, pre)) in enumerate(zip(got, exp)):
+        # a number in a TJ array moves the next glyph back along the writing direction (ISO 32000-1 9.4.3): x in
+        # horizontal, y in vertical writing mode
+        if vertical:
+            y -= pre * size / 1000.0
+        else:
+            x -= pre * size / 1000.0
         t = c.get_text()
         ok = te[0] == "any" or (te[0] == "eq" and t == te[1]) or (te[0] == "oneof" and t in te[1])
         if not ok:
@@ -612,7 +623,7 @@ def _code_lists(nbytes, small_top, lo=0):
 
 
 def _build_doc(font_model, enc_value, enc_stream, subtype, rnd, strings, size, x, y, tu_entries, ttf_subtables,
-               w_arr, w2_arr, tw=None):
+               w_arr, w2_arr, tw=None, tj=None):
     extra = {}
     ttf_ref = None
     if ttf_subtables is not None:
@@ -640,11 +651,19 @@ def _build_doc(font_model, enc_value, enc_stream, subtype, rnd, strings, size, x
     ops = [b"BT", b"/F1 %s Tf" % size.encode(), b"%s %s Td" % (x.encode(), y.encode())]
     if tw is not None:
         ops.append(b"%s Tw" % tw.encode())
-    for s in strings:
-        if rnd.random() < 0.7:
-            ops.append(b"<" + s.hex().encode() + b"> Tj")
-        else:
-            ops.append(W.ser(s) + b" Tj")
+    if tj:
+        parts = []
+        for k, s in enumerate(strings):
+            if k:
+                parts.append(b"%d" % tj[k - 1])
+            parts.append(b"<" + s.hex().encode() + b">" if rnd.random() < 0.7 else W.ser(s))
+        ops.append(b"[" + b" ".join(parts) + b"] TJ")
+    else:
+        for s in strings:
+            if rnd.random() < 0.7:
+                ops.append(b"<" + s.hex().encode() + b"> Tj")
+            else:
+                ops.append(W.ser(s) + b" Tj")
     ops.append(b"ET")
     fonts = {"F1": f}
     if rnd.random() < 0.5:
@@ -791,12 +810,17 @@ def ident_cases(draw):
         if 32 in all_codes:
             classes.append("Tw-set+code-0020")
             nt = True
+    tj = None
+    if len(strings) > 1 and draw(st.integers(0, 2)) == 0:
+        # the strings are shown by one TJ operator with a number between them
+        tj = [draw(st.sampled_from([100, -250, 1000, 35, -1])) for _ in strings[1:]]
+        classes.append("TJ-adjustment" + ("-vertical" if vertical else ""))
     pdf = _build_doc(font, W.N(enc), enc_stream, subtype, rnd, strings, size, x, y, tu_entries, ttf_subtables, w_arr, w2_arr,
-                     tw=tw)
-    desc = {"enc": enc, "coll": coll, "src": src, "size": size, "Tw": tw, "tu": tu_entries if tu_entries is None else tu_entries[:6],
+                     tw=tw, tj=tj)
+    desc = {"enc": enc, "coll": coll, "src": src, "size": size, "Tw": tw, "TJ": tj, "tu": tu_entries if tu_entries is None else tu_entries[:6],
             "W": _s(w_arr), "W2": _s(w2_arr),
             "DW": font["DW"], "DW2": font["DW2"]}
-    return {"mode": "doc", "pdf": pdf, "font": font, "strings": strings, "size": size, "x": x, "y": y,
+    return {"mode": "doc", "pdf": pdf, "font": font, "strings": strings, "size": size, "x": x, "y": y, "tj": tj,
             "classes": sorted(set(classes)), "nt": nt, "desc": desc}
 
 
